@@ -291,11 +291,18 @@ func runC07(o *Out) {
 		}
 		hasOrigin := origRecs[0].Len() > 0 && strings.Contains(b.text, "\nORIGIN")
 		ms := mutantsOf(o, b.text, b.every)
-		if !b.every && o.Tier != "thorough" {
-			// sample the mutants of large texts
+		if !b.every {
+			// sample the mutants of large texts (the model evaluates a 26 kB record in seconds)
+			limit := 400
+			if o.Tier == "thorough" {
+				limit = 1500
+				if len(b.text) > 9000 {
+					limit = 200
+				}
+			}
 			o.Rng.Shuffle(len(ms), func(i, j int) { ms[i], ms[j] = ms[j], ms[i] })
-			if len(ms) > 400 {
-				ms = ms[:400]
+			if len(ms) > limit {
+				ms = ms[:limit]
 			}
 		}
 		for _, m := range ms {
